@@ -46,10 +46,30 @@ func (set set) Build(ctx Context) (string, []any, error) {
 	return "(" + strings.Join(clauses, fmt.Sprintf(") %s (", set.operator)) + ")", args, nil
 }
 
+// MarshalJSON renders the set in the form ParseJSON reads: {"$and": [...]} / {"$or": [...]}.
+func (set set) MarshalJSON() ([]byte, error) {
+	items := set.items
+	if items == nil {
+		items = []Builder{}
+	}
+	return json.Marshal(map[string]any{
+		"$" + set.operator: items,
+	})
+}
+
 type keyValue struct {
 	operator string
 	key      string
 	value    any
+}
+
+// MarshalJSON renders the comparison in the form ParseJSON reads: {"$match": {"key": value}}.
+func (k keyValue) MarshalJSON() ([]byte, error) {
+	return json.Marshal(map[string]any{
+		k.operator: map[string]any{
+			k.key: k.value,
+		},
+	})
 }
 
 var _ Builder = (*keyValue)(nil)
@@ -70,6 +90,13 @@ func (n not) Build(context Context) (string, []any, error) {
 		return "", nil, err
 	}
 	return fmt.Sprintf("not (%s)", sub), args, nil
+}
+
+// MarshalJSON renders the negation in the form ParseJSON reads: {"$not": {...}}.
+func (n not) MarshalJSON() ([]byte, error) {
+	return json.Marshal(map[string]any{
+		"$not": n.expression,
+	})
 }
 
 func Not(expr Builder) not {
@@ -209,6 +236,16 @@ func mapMapToExpression(m map[string]any) (Builder, error) {
 			return nil, errors.Wrapf(err, "parsing %s", operator)
 		}
 		return match, nil
+	case "$not":
+		sub, ok := value.(map[string]any)
+		if !ok {
+			return nil, fmt.Errorf("unexpected type %T when decoding $not clause", value)
+		}
+		expression, err := mapMapToExpression(sub)
+		if err != nil {
+			return nil, errors.Wrap(err, "parsing $not")
+		}
+		return Not(expression), nil
 	default:
 		return nil, fmt.Errorf("unexpected operator %s", operator)
 	}
